@@ -218,6 +218,55 @@ func seedPayloads() []*V {
 	// equal and empty elements in []string / [][]byte fields and payloads
 	add(ptr(st(fld("F1", sens, &V{K: "strs", Cs: []int{1, 1, 0, 2, 1}}), fld("F2", sp("sensitive,hmac-sha256"), &V{K: "bytess", Cs: []int{3, 3, 0}}))))
 	add(&V{K: "strs", Cs: []int{1, 0, 1}})
+	// heterogeneous []interface{} values of maps (the JSON array [3, {"ssn": ...}]): a scalar first and containers later, in a map
+	// payload, a map field, a map in a map, under an untagged key of a Taggable map; every order of two element kinds + a third
+	mixed := func(c int, order ...string) *V {
+		v := &V{K: "islice"}
+		for i, k := range order {
+			switch k {
+			case "int":
+				v.Elems = append(v.Elems, &V{K: "int", I: 3})
+			case "zero":
+				v.Elems = append(v.Elems, &V{K: "int", I: 0})
+			case "bool":
+				v.Elems = append(v.Elems, &V{K: "bool", I: 1})
+			case "nil":
+				v.Elems = append(v.Elems, &V{K: "nilif"})
+			case "str":
+				v.Elems = append(v.Elems, str(c+10*i))
+			case "bytes":
+				v.Elems = append(v.Elems, &V{K: "bytes", C: c + 10*i})
+			case "map":
+				v.Elems = append(v.Elems, imap("k1", str(c+10*i), "k2", imap("k1", str(c+10*i+1))))
+			case "ptr":
+				v.Elems = append(v.Elems, ptr(inner(c+10*i)))
+			case "slice":
+				v.Elems = append(v.Elems, &V{K: "islice", Elems: []*V{{K: "int", I: 1}, imap("k1", str(c+10*i))}})
+			}
+		}
+		return v
+	}
+	kinds := []string{"int", "bool", "nil", "str", "bytes", "map", "ptr", "slice", "zero"}
+	nmix := 0
+	for _, a := range kinds {
+		for _, b := range kinds {
+			if a == b {
+				continue
+			}
+			m := mixed(1, a, b, []string{"map", "ptr", "str"}[nmix%3])
+			switch nmix % 4 {
+			case 0:
+				add(imap("k1", m))
+			case 1:
+				add(ptr(st(fld("F1", nil, imap("k1", str(90), "k2", m)))))
+			case 2:
+				add(imap("k1", imap("k2", m)))
+			default:
+				add(tmapv([]PTag{{Ptr: "/k1", Class: "public"}}, "k1", str(90), "k2", m))
+			}
+			nmix++
+		}
+	}
 	// unexported fields (F10)
 	add(ptr(&V{K: "hand", Hand: "UnexpA", Fields: []Field{fld("hidden", nil, &V{K: "int", I: 7}), fld("hiddenS", nil, str(1)), fld("N", nil, &V{K: "int", I: 5}), fld("Sec", sec, str(2)), fld("Pub", pub, str(3))}}))
 	return out
